@@ -692,4 +692,19 @@ theorem Seq.run_zero (s : Seq) (ops : List QOp) (hz : s.mintable = some 0) :
       obtain ⟨k1, k2, k3, k4⟩ := ih s' h1
       exact ⟨k1, k2.trans h2, k3.trans h3, k4.trans h4⟩
 
+/-! ## Round 3: pigeonhole — a duplicate-free list of `n` numbers from `1..=n` contains every one of them -/
+
+theorem mem_of_nodup_range_length (l : List Nat) (n : Nat) (hn : l.Nodup) (hs : ∀ y ∈ l, 1 ≤ y ∧ y ≤ n)
+    (hl : n ≤ l.length) (x : Nat) (h1 : 1 ≤ x) (h2 : x ≤ n) : x ∈ l := by
+  by_cases hx : x ∈ l
+  · exact hx
+  · exfalso
+    have hxr : x ∈ List.range' 1 n := List.mem_range'_1.mpr (by omega)
+    have hsub : ∀ y ∈ l, y ∈ (List.range' 1 n).erase x := fun y hy => by
+      have hne : y ≠ x := fun e => hx (e ▸ hy)
+      exact (List.mem_erase_of_ne hne).mpr (List.mem_range'_1.mpr (by have := hs y hy; omega))
+    have := length_le_of_nodup_subset l _ hn hsub
+    rw [List.length_erase_of_mem hxr] at this
+    simp at this; omega
+
 end LP.Supply
